@@ -18,14 +18,14 @@ theorem consts_match_model_authority (b2 b3 b4 b5 b6 b7 : UInt8) :
     authority b2 b3 b4 b5 b6 b7
       = (b2.toUInt64 <<< UInt64.ofNat ConstsC16.sid_auth0_shift) ||| (b3.toUInt64 <<< UInt64.ofNat ConstsC16.sid_auth1_shift)
         ||| (b4.toUInt64 <<< UInt64.ofNat ConstsC16.sid_auth2_shift) ||| (b5.toUInt64 <<< UInt64.ofNat ConstsC16.sid_auth3_shift)
-        ||| (b6.toUInt64 <<< UInt64.ofNat ConstsC16.sid_auth4_shift) ||| b7.toUInt64 := rfl
+        ||| (b6.toUInt64 <<< UInt64.ofNat ConstsC16.sid_auth4_shift) ||| b7.toUInt64 := by exact rfl
 
 theorem consts_match_model_authority_shape :
     [ConstsC16.sid_auth0_shape, ConstsC16.sid_auth1_shape, ConstsC16.sid_auth2_shape, ConstsC16.sid_auth3_shape,
      ConstsC16.sid_auth4_shape, ConstsC16.sid_auth5_shape]
       = ["(<< (uint64 (index sidBytes (+ 2 0))) 40)", "(<< (uint64 (index sidBytes (+ 2 1))) 32)",
          "(<< (uint64 (index sidBytes (+ 2 2))) 24)", "(<< (uint64 (index sidBytes (+ 2 3))) 16)",
-         "(<< (uint64 (index sidBytes (+ 2 4))) 8)", "(uint64 (index sidBytes (+ 2 5)))"] := rfl
+         "(<< (uint64 (index sidBytes (+ 2 4))) 8)", "(uint64 (index sidBytes (+ 2 5)))"] := by exact rfl
 
 /-- the sub-authority loop reads at `8 + 4·k` -/
 theorem consts_match_model_subLoop (b : Bytes) (k n : Nat) (acc : List String) :
@@ -33,7 +33,7 @@ theorem consts_match_model_subLoop (b : Bytes) (k n : Nat) (acc : List String) :
       match readLe32From b (ConstsC16.sid_sub_base + ConstsC16.sid_sub_stride * k) with
       | .ok v => subLoop b (k + 1) n (acc ++ [toString v.toNat])
       | .err => .err
-      | .panic => .panic := rfl
+      | .panic => .panic := by exact rfl
 
 /-- each sub-authority is 32 bits in the byte order the source names -/
 theorem consts_match_model_readLe32 :
@@ -64,7 +64,7 @@ theorem consts_match_model_parseSID (r c b2 b3 b4 b5 b6 b7 : UInt8) (rest : Byte
                                   (byteAt b (ConstsC16.sid_auth5_base + ConstsC16.sid_auth5_off))).toNat] with
         | .ok parts => .ok ("-".intercalate parts)
         | .err => .err
-        | .panic => .panic := rfl
+        | .panic => .panic := by exact rfl
 
 /-- a buffer shorter than the guard's minimum length is "not a SID" -/
 theorem consts_match_model_parseSID_short (b : Bytes) (h : b.length < ConstsC16.sid_guard_minLen) : parseSID b = .ok "" := by
